@@ -850,7 +850,7 @@ class C03(Check):
         return bool(lexable(e, o) and case_stable(e) and ids_distinct(e) and targets_ok(e) and types_in_scope(e)
                     and (e.nodes or e.top is None))
 
-    def _purity(self, fmt, mod, e, base_kw, fail, reencode_equal, flip_ok=True):
+    def _purity(self, fmt, mod, e, base_kw, fail, reencode_equal, flip_ok=True, fresh=None):
         """calls interleaved over indent settings and the single / list API: every repeated call with the same
         (graph, options) returns exactly the first text, every text decodes to the same graph, the argument is not
         modified, and the compact re-encoding of decode(t0) is t0 (when `reencode_equal` says it must be)"""
@@ -884,6 +884,15 @@ class C03(Check):
             if key in first and first[key] != t:
                 fail("%s: a repeated call with the same graph and options returns a different text" % fmt,
                      repr((key, first[key], t)))
+            if fresh is not None and api == "single" and key in first:
+                # the same call on a newly built, equal graph object: no answer may depend on earlier calls
+                try:
+                    tf = mod.encode(fresh(), indent=ind, **kw)
+                except Exception as ex:   # noqa: BLE001
+                    tf = type(ex).__name__
+                if tf != t:
+                    fail("%s: the text for a graph depends on earlier calls (differs from a newly built equal graph)"
+                         % fmt, repr((key, t, tf)))
             first.setdefault(key, t)
             kk = key[0]
             if kk in shown and shown[kk] != show(d):
@@ -1003,7 +1012,8 @@ class C03(Check):
         if len(e.nodes) <= 12:
             pk = dict(properties=o["properties"], lnk=o["lnk"], show_status=o["show_status"])
             fo = dict(o, properties=not o["properties"], lnk=not o["lnk"])
-            self._purity("native", edsnative, e, pk, fail, lambda d0: True, flip_ok=self._in_scope(e, fo))
+            self._purity("native", edsnative, e, pk, fail, lambda d0: True, flip_ok=self._in_scope(e, fo),
+                         fresh=lambda: eds_of_j(case["eds"]))
 
     def _oracle_docs(self, case, fail):
         es = [eds_of_j(g) for g in case["docs"]]
@@ -1091,7 +1101,8 @@ class C03(Check):
         if show(edsjson.loads(edsjson.dumps([e], properties=p, lnk=l, indent=ind))[0]) != show(d):
             fail("json: list API differs from single API", repr(s))
         self._purity("json", edsjson, e, dict(properties=p, lnk=l), fail,
-                     lambda d0: [n.id for n in d0.nodes] == [n.id for n in e.nodes])
+                     lambda d0: [n.id for n in d0.nodes] == [n.id for n in e.nodes],
+                     fresh=lambda: eds_of_j(case["eds"]))
         # re-encoding the decoded graph in the native format reproduces the native text (up to node order)
         o = {"properties": p, "lnk": l, "show_status": True, "indent": True}
         if self._in_scope(e, o) and all((not n.lnk) or n.lnk.type == Lnk.CHARSPAN for n in e.nodes):
@@ -1143,7 +1154,8 @@ class C03(Check):
             fail("penman: list API differs from single API", repr(s))
         self._purity("penman", edspenman, e, dict(properties=p, lnk=l), fail,
                      lambda d0: edspenman.to_triples(d0, properties=p, lnk=l) == edspenman.to_triples(e, properties=p,
-                                                                                                      lnk=l))
+                                                                                                      lnk=l),
+                     fresh=lambda: eds_of_j(case["eds"]))
         # side oracle for the identity parameter: penman keeps the triples the model is stated over
         tr = edspenman.to_triples(e, properties=p, lnk=l)
         back = penman.decode(penman.encode(penman.Graph(tr))).triples
